@@ -252,14 +252,19 @@ func c14r3(r *R) {
 	eachInstr(w, func(i ssa.Instruction) {
 		if isReturn(i) {
 			nret++
-			gs := c.guardStrs(i.Block())
-			closed := false
-			for _, g := range gs {
-				if strings.HasPrefix(g, "-select") && strings.Contains(g, "#") {
-					closed = true
+			// every way of reaching the return (one return per closed channel, or one return after a loop that is left
+			// when either channel is closed) has seen a receive report a closed channel
+			alts := c.pathAlts(i.Block())
+			ow.AtI(i).Check(len(alts) > 0, "Watch returns on an edge other than a closed watcher channel; guards %v", c.guardStrs(i.Block()))
+			for _, gs := range alts {
+				closed := false
+				for _, g := range gs {
+					if strings.HasPrefix(g, "-select") && strings.Contains(g, "#") {
+						closed = true
+					}
 				}
+				ow.AtI(i).Check(closed, "Watch returns on an edge other than a closed watcher channel; conditions %v", gs)
 			}
-			ow.AtI(i).Check(closed, "Watch returns on an edge other than a closed watcher channel; guards %v", gs)
 		}
 	})
 	ow.Check(nret >= 1 && nret <= 2, "Watch has %d returns", nret)
